@@ -19,6 +19,7 @@ Verdicts(ev) ==
         ELSE IF \E k \in 1..Len(want) : ev.res[k].kq # want[k].kq \/ ev.res[k].bq # want[k].bq THEN <<"wrong_weight_quantizers">>
         ELSE IF \E k \in 1..Len(want) : ev.res[k].act # want[k].act THEN <<"wrong_activation">>
         ELSE <<>>)
+       \o (IF ev.hyper # 1 THEN <<"non_quantization_hyperparameters_changed">> ELSE <<>>)
        \o (IF ev.src # 1 THEN <<"source_model_modified">> ELSE <<>>)
        \o (IF ev.dct # 1 THEN <<"callers_dictionary_modified">> ELSE <<>>)
        \o (IF ev.wts # 1 THEN <<"weights_not_transferred">> ELSE <<>>)
